@@ -481,6 +481,18 @@ class Explorer:
         return stats
 
     def _fold(self, stats, o):
+        if 'agg' in o:
+            # a group may report its passing cases in aggregate (cases are distinct by construction)
+            a = o['agg']
+            stats['cases'] += a['cases']
+            stats['ntcount'] = stats.get('ntcount', 0) + a['nt']
+            stats['sigs'].update(a.get('sigs', ()))
+            stats['trans'] += a.get('trans', a['cases'])
+            if a.get('layer') is not None:
+                stats['layers'][a['layer']] = stats['layers'].get(a['layer'], 0) + a['cases']
+            if len(stats['samples']) < 12 and a.get('samples'):
+                stats['samples'].extend(a['samples'][:2])
+            return
         stats['cases'] += 1
         key = json.dumps(o['case'], sort_keys=True, default=repr)
         h = hashlib.sha1(key.encode()).hexdigest()[:16]
@@ -550,13 +562,18 @@ def make_jail(env, troot):
     return scan_tree(troot)
 
 
-def run_jailed(env, troot, argv, timeout=10.0):
+def run_jailed(env, troot, argv, timeout=10.0, cwd='/'):
     env.runs += 1
     e = {'HOME': '/L/home', 'XDG_CONFIG_HOME': '/L/home/.config', 'LC_ALL': 'C.UTF-8', 'TZ': 'UTC',
          'NO_COLOR': '1', 'RUST_BACKTRACE': '0', 'PATH': '/L'}
-    cmd = ['/usr/sbin/chroot', troot, '/L/ld.so', '--library-path', '/L', '/L/fselect'] + list(argv)
-    p = subprocess.Popen(cmd, env=e, cwd='/', stdin=subprocess.DEVNULL, stdout=subprocess.PIPE,
-                         stderr=subprocess.PIPE, preexec_fn=_limits, start_new_session=True)
+    cmd = ['/L/ld.so', '--library-path', '/L', '/L/fselect'] + list(argv)
+
+    def pre():
+        _limits()
+        os.chroot(troot)
+        os.chdir(cwd)
+    p = subprocess.Popen(cmd, env=e, stdin=subprocess.DEVNULL, stdout=subprocess.PIPE,
+                         stderr=subprocess.PIPE, preexec_fn=pre, start_new_session=True)
     try:
         out, err = p.communicate(timeout=timeout)
         return Obs(p.returncode, out, err)
@@ -567,3 +584,114 @@ def run_jailed(env, troot, argv, timeout=10.0):
             pass
         out, err = p.communicate()
         return Obs(-9, out, err, timeout=True)
+
+
+# --------------------------------------------------------------------------- batch transport (hook)
+
+class Batch:
+    """The subject started once with FSELECT_VERIF_BATCH (cargo feature verif-hooks): every
+    record is run through the crate's own exec_search.  A record that ends the process
+    (error_exit -> status 2) or hangs is observed as such and the server is restarted."""
+
+    def __init__(self, env, cwd, extra_env=None, jail=None):
+        self.env, self.cwd, self.extra, self.jail = env, cwd, extra_env or {}, jail
+        self.p = None
+        self.nonce = 'n%d' % os.getpid()
+        self.mo = ('\n@@FSX:%s:OUT:' % self.nonce).encode()
+        self.me = ('\n@@FSX:%s:ERR@@\n' % self.nonce).encode()
+
+    def _start(self):
+        e = dict(self.env.baseenv)
+        e.update(self.extra)
+        e['FSELECT_VERIF_BATCH'] = self.nonce
+        if self.jail:
+            jail, cwd = self.jail, self.cwd
+            e.update({'HOME': '/L/home', 'XDG_CONFIG_HOME': '/L/home/.config', 'PATH': '/L'})
+
+            def pre():
+                _limits()
+                os.chroot(jail)
+                os.chdir(cwd)
+            self.p = subprocess.Popen(['/L/ld.so', '--library-path', '/L', '/L/fselect'], env=e, stdin=subprocess.PIPE,
+                                      stdout=subprocess.PIPE, stderr=subprocess.PIPE, preexec_fn=pre,
+                                      start_new_session=True, bufsize=0)
+        else:
+            self.p = subprocess.Popen([self.env.binary], cwd=self.cwd, env=e, stdin=subprocess.PIPE,
+                                      stdout=subprocess.PIPE, stderr=subprocess.PIPE, preexec_fn=_limits,
+                                      start_new_session=True, bufsize=0)
+        for f in (self.p.stdout, self.p.stderr):
+            os.set_blocking(f.fileno(), False)
+
+    def close(self):
+        if self.p is not None:
+            try:
+                os.killpg(self.p.pid, signal.SIGKILL)
+            except OSError:
+                pass
+            self.p.wait()
+            for f in (self.p.stdin, self.p.stdout, self.p.stderr):
+                try:
+                    f.close()
+                except OSError:
+                    pass
+            self.p = None
+
+    def run(self, argv, timeout=5.0):
+        import select
+        self.env.runs += 1
+        if self.p is None:
+            self._start()
+        rec = b'\x1f'.join(a.encode('utf-8', 'surrogateescape') for a in argv) + b'\x1e'
+        try:
+            self.p.stdin.write(rec)
+            self.p.stdin.flush()
+        except (BrokenPipeError, OSError):
+            self.close()
+            raise MachineryError('batch server died before accepting a record')
+        out, err = b'', b''
+        fo, fe = self.p.stdout.fileno(), self.p.stderr.fileno()
+        open_fds = {fo, fe}
+        done_o = done_e = False
+        status = None
+        deadline = time.time() + timeout
+        while not (done_o and done_e):
+            left = deadline - time.time()
+            if left <= 0:
+                self.close()
+                return Obs(-9, out, err, timeout=True)
+            if not open_fds:
+                break
+            r, _, _ = select.select(list(open_fds), [], [], left)
+            for fd in r:
+                try:
+                    chunk = os.read(fd, 65536)
+                except BlockingIOError:
+                    continue
+                if not chunk:
+                    open_fds.discard(fd)
+                    continue
+                if fd == fo:
+                    out += chunk
+                else:
+                    err += chunk
+            if not done_o:
+                i = out.find(self.mo)
+                if i >= 0:
+                    j = out.find(b'@@\n', i + len(self.mo))
+                    if j >= 0:
+                        status = out[i + len(self.mo):j].decode()
+                        out = out[:i]
+                        done_o = True
+            if not done_e:
+                i = err.find(self.me)
+                if i >= 0:
+                    err = err[:i]
+                    done_e = True
+        if done_o and done_e:
+            if status == 'PANIC':
+                return Obs(101, out, err)
+            return Obs(int(status), out, err)
+        # the process ended inside the record (error_exit or abort)
+        rc = self.p.wait()
+        self.close()
+        return Obs(rc, out, err)
